@@ -110,8 +110,20 @@ package influx
 //@   ensures [rejects] (ts * multiplier > 9223372036854775807 || ts * multiplier < -9223372036854775808) ==> result1 != nil
 //@   assigns nothing
 //@ func (*unmarshalWork).Unmarshal
+//@   ghost bad bool = false
 //@   call scaleTimestamp
 //@     requires [precision] arg1 >= 1 && arg1 == tsMultiplier && arg0 == row.Timestamp
+//@     requires [nothing_scaled_after_a_rejected_row] !bad
+//@     set bad = bad || ret1 != nil
+//@   call (*Row).CheckValid
+//@     requires [nothing_checked_after_a_rejected_row] !bad
+//@     set bad = bad || ret0 != nil
+//@   call uw.Callback
+//@     requires [rejected_row_rejects_the_block] bad ==> arg2 != nil
+//@   loop 1
+//@     invariant !bad
+//@   loop 2
+//@     invariant !bad
 
 // The number syntax accepted for float fields: [+-]? (digits [. digits?] | . digits) ([eE] [+-]? digits)?
 // as a transition table (state x character class); everything not listed is rejected. In particular an exponent
